@@ -190,6 +190,9 @@ func (l *Lexer) Next(p []byte) (TokenType, []byte, error) {
 				continue
 			}
 		case OpAttachment:
+			if int64(recordLen) < 0 {
+				return TokenError, nil, fmt.Errorf("attachment record length %d exceeds int64 range", recordLen)
+			}
 			limitReader := &io.LimitedReader{
 				R: l.reader,
 				N: int64(recordLen),
